@@ -14,7 +14,7 @@ from .tlc import run_tlc
 FAMILIES = [("pubo", "PUBO", "PCBO", ["a", "b", "c"]), ("puso", "PUSO", "PCSO", ["a", "b", "c"]),
             ("qubo", "QUBO", "PUBO", ["a", "b", "c"]), ("quso", "QUSO", "PUSO", ["a", "b", "c"]),
             ("bmat", "PUBOMatrix", "QUBOMatrix", [0, 2, 3]), ("smat", "PUSOMatrix", "QUSOMatrix", [0, 2, 3])]
-TRACE_INVS = ["TermsMatch", "KindMatch", "ImplNoRaise", "ImplStoredCanonical", "ImplValue", "ImplUnchangedOthers",
+TRACE_INVS = ["TermsMatch", "KindMatch", "ImplNoRaise", "ImplStoredCanonical", "ImplValue", "ImplUnchangedOthers", "ImplEquality",
               "ImplUpperBounds", "NotStuck", "Drift"]
 OPS = "ArithOps"
 
